@@ -6068,6 +6068,34 @@ static hawk_val_t* eval_binop_mod (hawk_rtx_t* rtx, hawk_val_t* left, hawk_val_t
 	return res;
 }
 
+/* exponentiation by squaring. the loop is bounded by the number of bits of
+ * the exponent. repeated multiplication would loop as many times as the value
+ * of the exponent inside a single expression, where a halt request is not seen */
+static hawk_int_t pow_int_by_uint (hawk_int_t base, hawk_uint_t exp)
+{
+	/* unsigned arithmetic wraps around on overflow like the machine multiplication */
+	hawk_uint_t v = 1, b = (hawk_uint_t)base;
+	while (exp > 0)
+	{
+		if (exp & 1) v *= b;
+		b *= b;
+		exp >>= 1;
+	}
+	return (hawk_int_t)v;
+}
+
+static hawk_flt_t pow_flt_by_uint (hawk_flt_t base, hawk_uint_t exp)
+{
+	hawk_flt_t v = 1.0;
+	while (exp > 0)
+	{
+		if (exp & 1) v *= base;
+		base *= base;
+		exp >>= 1;
+	}
+	return v;
+}
+
 static hawk_val_t* eval_binop_exp (hawk_rtx_t* rtx, hawk_val_t* left, hawk_val_t* right)
 {
 	int n1, n2, n3;
@@ -6091,9 +6119,7 @@ static hawk_val_t* eval_binop_exp (hawk_rtx_t* rtx, hawk_val_t* left, hawk_val_t
 			/* left - int, right - int */
 			if (l2 >= 0)
 			{
-				hawk_int_t v = 1;
-				while (l2-- > 0) v *= l1;
-				res = hawk_rtx_makeintval (rtx, v);
+				res = hawk_rtx_makeintval (rtx, pow_int_by_uint(l1, (hawk_uint_t)l2));
 			}
 			else if (l1 == 0)
 			{
@@ -6102,10 +6128,8 @@ static hawk_val_t* eval_binop_exp (hawk_rtx_t* rtx, hawk_val_t* left, hawk_val_t
 			}
 			else
 			{
-				hawk_flt_t v = 1.0;
-				l2 *= -1;
-				while (l2-- > 0) v /= l1;
-				res = hawk_rtx_makefltval (rtx, v);
+				/* -(hawk_uint_t)l2 is the magnitude of l2 even if l2 is the smallest integer */
+				res = hawk_rtx_makefltval (rtx, 1.0 / pow_flt_by_uint((hawk_flt_t)l1, -(hawk_uint_t)l2));
 			}
 			break;
 
@@ -6113,9 +6137,7 @@ static hawk_val_t* eval_binop_exp (hawk_rtx_t* rtx, hawk_val_t* left, hawk_val_t
 			/* left - real, right - int */
 			if (l2 >= 0)
 			{
-				hawk_flt_t v = 1.0;
-				while (l2-- > 0) v *= r1;
-				res = hawk_rtx_makefltval (rtx, v);
+				res = hawk_rtx_makefltval (rtx, pow_flt_by_uint(r1, (hawk_uint_t)l2));
 			}
 			else if (r1 == 0.0)
 			{
@@ -6124,10 +6146,7 @@ static hawk_val_t* eval_binop_exp (hawk_rtx_t* rtx, hawk_val_t* left, hawk_val_t
 			}
 			else
 			{
-				hawk_flt_t v = 1.0;
-				l2 *= -1;
-				while (l2-- > 0) v /= r1;
-				res = hawk_rtx_makefltval (rtx, v);
+				res = hawk_rtx_makefltval (rtx, 1.0 / pow_flt_by_uint(r1, -(hawk_uint_t)l2));
 			}
 			break;
 
